@@ -1253,3 +1253,281 @@ Proof.
     rdone. }
   rdone.
 Qed.
+
+(* ------------------------------------------------------------------ Relation::remove *)
+Lemma relation_remove_scan_next_le post k : relation_remove_scan_next post = Ok k -> k <= length post.
+Proof.
+  unfold relation_remove_scan_next. pose proof (ws_prefix_len_le post) as H.
+  destruct (skipn (ws_prefix_len post) post) as [|c r] eqn:E.
+  - intros [= <-]. exact H.
+  - destruct (kind_is PIPE c); [|discriminate]. intros [= <-].
+    assert (length (skipn (ws_prefix_len post) post) = S (length r)) by now rewrite E.
+    rewrite skipn_length in H0. pose proof (ws_prefix_len_le r). lia.
+Qed.
+Lemma relation_remove_scan_prev_le pre : relation_remove_scan_prev pre <= length pre.
+Proof.
+  unfold relation_remove_scan_prev. pose proof (ws_prefix_len_le (rev pre)) as H. rewrite rev_length in H.
+  destruct (skipn (ws_prefix_len (rev pre)) (rev pre)) as [|c r] eqn:E; [exact H|].
+  assert (length (skipn (ws_prefix_len (rev pre)) (rev pre)) = S (length r)) by now rewrite E.
+  rewrite skipn_length, rev_length in H0. pose proof (ws_prefix_len_le r).
+  destruct (kind_is PIPE c); lia.
+Qed.
+
+(* the cleanup loops of Relation::remove *)
+Lemma relation_remove_phase1 ts rs r tid ri T p kd pre x post cs' :
+  nth_error rs r = Some (Some (mk_hnd tid (p ++ [length pre]))) ->
+  nth_error ts tid = Some (mk_slot true ri T) ->
+  get_path T p = Some (Node kd (pre ++ x :: post)) ->
+  relation_remove_cs (pre ++ x :: post) (length pre) = Ok cs' ->
+  exists ts1 F1 pre1 post1,
+    runs (if negb (existsb is_relation pre) then
+            match relation_remove_scan_next post with
+            | Ok k => m_repeat k (m_detach_next r)
+            | Panic n => m_repeat (ws_prefix_len post) (m_detach_next r) ;; mpanic n
+            | Err e => merr e
+            | OutOfFuel => merr 96
+            end
+          else m_repeat (relation_remove_scan_prev pre) (m_detach_prev r))
+         (mk_state ts rs) tt (mk_state ts1 (map (option_map F1) rs)) /\
+    cs' = pre1 ++ post1 /\
+    length ts <= length ts1 /\
+    nth_error ts1 tid = Some (mk_slot true ri (upd_path T p (fun _ => Node kd (pre1 ++ x :: post1)))) /\
+    (forall j, j <> tid -> j < length ts -> nth_error ts1 j = nth_error ts j) /\
+    F1 (mk_hnd tid (p ++ [length pre])) = mk_hnd tid (p ++ [length pre1]) /\
+    (forall g, above tid p g -> F1 g = g).
+Proof.
+  intros Hr HT HG Hcs. unfold relation_remove_cs in Hcs.
+  rewrite firstn_app_len, skipn_S_app_len in Hcs.
+  destruct (negb (existsb is_relation pre)) eqn:Efirst.
+  - destruct (relation_remove_scan_next post) as [k| | |] eqn:Esc; try discriminate.
+    inversion Hcs; subst cs'; clear Hcs.
+    pose proof (relation_remove_scan_next_le _ _ Esc) as Hk.
+    destruct (detach_next_repeat k ts rs r tid ri T p kd pre x post Hr HT HG Hk)
+      as (ts1 & F1 & R1 & L1 & T1 & O1 & S1 & A1).
+    exists ts1, F1, pre, (skipn k post). repeat split; auto.
+  - inversion Hcs; subst cs'; clear Hcs.
+    set (k2 := relation_remove_scan_prev pre) in *.
+    assert (Hk2 : k2 <= length pre) by apply relation_remove_scan_prev_le.
+    set (pre0 := firstn (length pre - k2) pre) in *. set (gone := skipn (length pre - k2) pre).
+    assert (Epre : pre = pre0 ++ gone) by (symmetry; apply firstn_skipn).
+    assert (Lgone : length gone = k2) by (unfold gone; rewrite skipn_length; lia).
+    assert (Lpre0 : length pre = length pre0 + length gone) by (rewrite Epre at 1; apply app_length).
+    assert (Hr' : nth_error rs r = Some (Some (mk_hnd tid (p ++ [length pre0 + length gone]))))
+      by (now rewrite <- Lpre0).
+    assert (HG' : get_path T p = Some (Node kd (pre0 ++ gone ++ x :: post)))
+      by (rewrite app_assoc, <- Epre; exact HG).
+    destruct (detach_prev_repeat gone ts rs r tid ri T p kd pre0 x post Hr' HT HG')
+      as (ts1 & F1 & R1 & L1 & T1 & O1 & S1 & A1).
+    exists ts1, F1, pre0, post. repeat split; auto.
+    + rewrite <- Lgone. exact R1.
+    + rewrite Lpre0. exact S1.
+Qed.
+
+Lemma relation_remove_spec ts rs r tid ri T ppe kd epre epost pre x post cs' ecs' :
+  nth_error rs r = Some (Some (mk_hnd tid ((ppe ++ [length epre]) ++ [length pre]))) ->
+  nth_error ts tid = Some (mk_slot true ri T) ->
+  get_path T ppe = Some (Node kd (epre ++ Node ENTRY (pre ++ x :: post) :: epost)) ->
+  relation_remove_cs (pre ++ x :: post) (length pre) = Ok cs' ->
+  (if count_if is_relation cs' =? 0
+   then entry_remove_cs fixed (epre ++ Node ENTRY cs' :: epost) (length epre)
+   else Ok (epre ++ Node ENTRY cs' :: epost)) = Ok ecs' ->
+  exists ts' F,
+    runs (relation_remove fixed r) (mk_state ts rs) tt (mk_state ts' (map (option_map F) rs)) /\
+    length ts <= length ts' /\
+    nth_error ts' tid = Some (mk_slot true ri (upd_path T ppe (fun _ => Node kd ecs'))) /\
+    (forall j, j <> tid -> j < length ts -> nth_error ts' j = nth_error ts j) /\
+    (exists tn rn, F (mk_hnd tid ((ppe ++ [length epre]) ++ [length pre])) = mk_hnd tn [] /\
+                   nth_error ts' tn = Some (mk_slot true rn x)) /\
+    (exists sl, nth_error ts' (h_tid (F (mk_hnd tid (ppe ++ [length epre])))) = Some sl /\
+                get_path (s_tree sl) (h_path (F (mk_hnd tid (ppe ++ [length epre])))) = Some (Node ENTRY cs')) /\
+    (forall g, above tid ppe g -> F g = g).
+Proof.
+  intros Hr HT HGp Hcs Hecs.
+  set (pe := ppe ++ [length epre]) in *.
+  pose proof (nth_error_Some_lt _ _ _ HT) as Hlt.
+  assert (HG : get_path T pe = Some (Node ENTRY (pre ++ x :: post)))
+    by (eapply get_path_child; [exact HGp|apply nth_error_app_len]).
+  destruct (relation_remove_phase1 ts rs r tid ri T pe ENTRY pre x post cs' Hr HT HG Hcs)
+    as (ts1 & F1 & pre1 & post1 & R1 & Ecs & L1 & T1 & O1 & S1 & A1).
+  set (T1' := upd_path T pe (fun _ => Node ENTRY (pre1 ++ x :: post1))) in *.
+  assert (HG1 : get_path T1' pe = Some (Node ENTRY (pre1 ++ x :: post1)))
+    by (now apply get_path_upd_path with (n := Node ENTRY (pre ++ x :: post))).
+  (* push_tmp ph, then self.0.detach() *)
+  set (rs1 := map (option_map F1) rs ++ [Some (mk_hnd tid pe)]).
+  assert (Hr1 : nth_error rs1 r = Some (Some (mk_hnd tid (pe ++ [length pre1]))))
+    by (unfold rs1; apply nth_error_app_l; rewrite (nth_error_map_reg F1 _ _ _ Hr); now rewrite S1).
+  destruct (detach_reg_spec ts1 rs1 r tid ri T1' pe ENTRY pre1 x post1 Hr1 T1 HG1)
+    as (ts2 & F2 & R2 & L2 & T2 & N2 & O2 & S2 & A2).
+  assert (ET2 : upd_path T1' pe (fun _ => Node ENTRY (pre1 ++ post1))
+                = upd_path T ppe (fun _ => Node kd (epre ++ Node ENTRY cs' :: epost))).
+  { unfold T1'. rewrite (upd_path_const2 _ _ _ _ _ HG). rewrite <- Ecs. unfold pe.
+    apply (upd_path_snoc _ _ _ _ _ _ _ HGp). }
+  rewrite ET2 in T2.
+  set (T2' := upd_path T ppe (fun _ => Node kd (epre ++ Node ENTRY cs' :: epost))) in *.
+  assert (HG2p : get_path T2' ppe = Some (Node kd (epre ++ Node ENTRY cs' :: epost)))
+    by (now apply get_path_upd_path with (n := Node kd (epre ++ Node ENTRY (pre ++ x :: post) :: epost))).
+  assert (HG2 : get_path T2' pe = Some (Node ENTRY cs'))
+    by (eapply get_path_child; [exact HG2p|apply nth_error_app_len]).
+  assert (Hrp2 : nth_error (map (option_map F2) rs1) (length rs) = Some (Some (mk_hnd tid pe))).
+  { unfold rs1. rewrite <- (map_length (option_map F1) rs).
+    rewrite (nth_error_map_reg F2 _ _ _ (nth_error_app_at _ _)). now rewrite A2 by apply above_self. }
+  (* the common prefix of the run *)
+  assert (Hhead : forall (k : M unit) st',
+     runs k (mk_state ts2 (map (option_map F2) rs1)) tt st' ->
+     forall ts3 rs3, st' = mk_state ts3 rs3 ->
+     runs (relation_remove fixed r) (mk_state ts rs) tt (mk_state ts3 (firstn (length rs) rs3)) \/ True).
+  { intros; now right. }
+  clear Hhead.
+  assert (Hrun : forall (tail : M unit) ts3 rs3,
+     runs tail (mk_state ts2 (map (option_map F2) rs1)) tt (mk_state ts3 rs3) ->
+     tail = (pcs' <- (ph' <- get_reg (length rs) ;; children_of ph') ;;
+             if count_if is_relation pcs' =? 0 then entry_remove fixed (length rs) else ret tt) ->
+     runs (relation_remove fixed r) (mk_state ts rs) tt (mk_state ts3 (firstn (length rs) rs3))).
+  { intros tail ts3 rs3 Rt ->. unfold relation_remove.
+    rbind; [apply runs_get_reg; exact Hr|]. fold pe. rewrite parent_h_app.
+    apply runs_scoped.
+    rbind; [eapply runs_children_of; [exact HT|exact HG]|]. cbn [children].
+    rewrite firstn_app_len, skipn_S_app_len.
+    rbind; [exact R1|].
+    rbind; [eapply runs_node_of; [exact T1|exact HG1]|].
+    change (kind_is ENTRY (Node ENTRY (pre1 ++ x :: post1))) with true. cbn iota.
+    rbind; [apply runs_push_tmp|]. rewrite map_length. cbn [fx_remove_last fixed].
+    rbind; [exact R2|]. exact Rt. }
+  destruct (count_if is_relation cs' =? 0) eqn:Ecount.
+  - (* the entry has no alternative left: it is removed as well *)
+    destruct (entry_remove_spec ts2 (map (option_map F2) rs1) (length rs) tid ri T2' ppe kd epre (Node ENTRY cs') epost ecs'
+                Hrp2 T2 HG2p Hecs) as (ts3 & F3 & R3 & L3 & T3 & O3 & (tn3 & rn3 & S3 & N3) & A3).
+    exists ts3, (fun g => F3 (F2 (F1 g))).
+    assert (Eregs : firstn (length rs) (map (option_map F3) (map (option_map F2) rs1))
+                    = map (option_map (fun g => F3 (F2 (F1 g)))) rs).
+    { unfold rs1. rewrite !map_app. rewrite <- (map_length (option_map F1) rs) at 1.
+      rewrite <- (map_length (option_map F2) (map (option_map F1) rs)).
+      rewrite <- (map_length (option_map F3) (map (option_map F2) (map (option_map F1) rs))).
+      rewrite firstn_app_len. now rewrite !map_option_map_comp. }
+    rewrite <- Eregs. repeat split.
+    + eapply Hrun; [|reflexivity].
+      rbind; [rbind; [apply runs_get_reg; exact Hrp2|]; eapply runs_children_of; [exact T2|exact HG2]|].
+      cbn [children]. rewrite Ecount. exact R3.
+    + lia.
+    + rewrite T3. f_equal. f_equal. unfold T2'. now rewrite (upd_path_const2 _ _ _ _ _ HGp).
+    + intros j Hj Hl. rewrite O3 by lia. rewrite O2 by lia. now apply O1.
+    + exists (length ts1), (length pre1). split.
+      * rewrite S1, S2. apply A3. left. cbn [h_tid]. lia.
+      * rewrite O3; [exact N2|lia|lia].
+    + rewrite (A1 (mk_hnd tid pe)) by apply above_self. rewrite (A2 (mk_hnd tid pe)) by apply above_self.
+      unfold pe. rewrite S3. cbn [h_tid h_path]. eexists. split; [exact N3|reflexivity].
+    + intros g Hg. rewrite A1 by (unfold pe; destruct Hg as [Hg|[rest ->]]; [now left|right; exists (rest ++ [length epre]); now rewrite app_assoc]).
+      rewrite A2 by (unfold pe; destruct Hg as [Hg|[rest ->]]; [now left|right; exists (rest ++ [length epre]); now rewrite app_assoc]).
+      now apply A3.
+  - (* alternatives remain *)
+    inversion Hecs; subst ecs'; clear Hecs.
+    exists ts2, (fun g => F2 (F1 g)).
+    assert (Eregs : firstn (length rs) (map (option_map F2) rs1) = map (option_map (fun g => F2 (F1 g))) rs).
+    { unfold rs1. rewrite !map_app. rewrite <- (map_length (option_map F1) rs) at 1.
+      rewrite <- (map_length (option_map F2) (map (option_map F1) rs)).
+      rewrite firstn_app_len. now rewrite map_option_map_comp. }
+    rewrite <- Eregs. repeat split.
+    + eapply Hrun; [|reflexivity].
+      rbind; [rbind; [apply runs_get_reg; exact Hrp2|]; eapply runs_children_of; [exact T2|exact HG2]|].
+      cbn [children]. rewrite Ecount. rdone.
+    + lia.
+    + exact T2.
+    + intros j Hj Hl. rewrite O2 by lia. now apply O1.
+    + exists (length ts1), (length pre1). split; [now rewrite S1, S2|exact N2].
+    + rewrite (A1 (mk_hnd tid pe)) by apply above_self. rewrite (A2 (mk_hnd tid pe)) by apply above_self.
+      cbn [h_tid h_path]. eexists. split; [exact T2|exact HG2].
+    + intros g Hg. rewrite A1 by (unfold pe; destruct Hg as [Hg|[rest ->]]; [now left|right; exists (rest ++ [length epre]); now rewrite app_assoc]).
+      apply A2. unfold pe; destruct Hg as [Hg|[rest ->]]; [now left|right; exists (rest ++ [length epre]); now rewrite app_assoc].
+Qed.
+
+(* [OGetEntry 0 i; OERemoveRel 0 j] on a constructor-built field *)
+Lemma l_remove_app_len {A} (a : list A) x b : l_remove (length a) (a ++ x :: b) = a ++ b.
+Proof. unfold l_remove. now rewrite firstn_app_len, skipn_S_app_len. Qed.
+Lemma l_replace_app_len {A} (a : list A) x y b : l_replace (length a) y (a ++ x :: b) = a ++ y :: b.
+Proof. unfold l_replace. now rewrite firstn_app_len, skipn_S_app_len. Qed.
+
+Lemma l_remove_relation_split (fa : lfield) ra r0 rb fb :
+  l_remove_relation (length fa) (length ra) (fa ++ (ra ++ r0 :: rb) :: fb) =
+  match ra ++ rb with [] => fa ++ fb | e' => fa ++ e' :: fb end.
+Proof.
+  unfold l_remove_relation. rewrite nth_error_app_len. rewrite l_remove_app_len.
+  destruct (ra ++ rb) eqn:E.
+  - apply l_remove_app_len.
+  - apply l_replace_app_len.
+Qed.
+
+Lemma remove_relation_runs fa ra r0 rb fb ts tid ri b c d :
+  nth_error ts tid = Some (mk_slot true ri (cfield_tree (fa ++ (ra ++ r0 :: rb) :: fb))) ->
+  exists ts' a' b' c' d' x,
+    runs (run_op fixed (OERemoveRel 0 (length ra)))
+         (st5 ts (mk_hnd tid []) (Some (mk_hnd tid [3 * length fa])) b c d) x
+         (st5 ts' (mk_hnd tid []) a' b' c' d') /\
+    nth_error ts' tid = Some (mk_slot true ri
+      (cfield_tree (l_remove_relation (length fa) (length ra) (fa ++ (ra ++ r0 :: rb) :: fb)))).
+Proof.
+  intros HT.
+  destruct (cfield_children_split fa (ra ++ r0 :: rb) fb) as [Ecs Lpre].
+  destruct (centry_children_split ra r0 rb) as [Ercs Lrpre].
+  set (T := cfield_tree (fa ++ (ra ++ r0 :: rb) :: fb)) in *.
+  set (epre := preE (map centry_tree fa)) in *. set (epost := sepE (map centry_tree fb)) in *.
+  set (pre := preR (map crel_tree ra)) in *. set (post := sepR (map crel_tree rb)) in *.
+  assert (HGp : get_path T [] = Some (Node ROOT (epre ++ Node ENTRY (pre ++ crel_tree r0 :: post) :: epost))).
+  { cbn [get_path]. f_equal. unfold T at 1. unfold cfield_tree, relations_from_entries. f_equal.
+    change (join_entries 0 (map centry_tree (fa ++ (ra ++ r0 :: rb) :: fb))) with (children T).
+    rewrite Ecs. f_equal. f_equal. unfold centry_tree, entry_from_relations. f_equal.
+    unfold centry_tree, entry_from_relations in Ercs. cbn [children] in Ercs. exact Ercs. }
+  set (cs' := join_relations fixed 0 (map crel_tree (ra ++ rb))).
+  assert (Hcs : relation_remove_cs (pre ++ crel_tree r0 :: post) (length pre) = Ok cs').
+  { rewrite <- Ercs, Lrpre. unfold centry_tree, entry_from_relations. cbn [children].
+    rewrite relation_remove_cs_canon; [|apply Forall_relationish_map|rewrite map_length, app_length; cbn [length]; lia].
+    unfold cs'. rewrite <- map_l_remove. now rewrite l_remove_app_len. }
+  assert (Ecount : count_if is_relation cs' = length (ra ++ rb)).
+  { unfold cs'. rewrite count_relations_join by apply Forall_relationish_map. apply map_length. }
+  assert (Ecs'entry : Node ENTRY cs' = centry_tree (ra ++ rb)) by reflexivity.
+  set (ecs' := children (cfield_tree (match ra ++ rb with [] => fa ++ fb | e' => fa ++ e' :: fb end))).
+  assert (Hecs : (if count_if is_relation cs' =? 0
+                  then entry_remove_cs fixed (epre ++ Node ENTRY cs' :: epost) (length epre)
+                  else Ok (epre ++ Node ENTRY cs' :: epost)) = Ok ecs').
+  { rewrite Ecount, Ecs'entry. unfold ecs'.
+    destruct (cfield_children_split fa (ra ++ rb) fb) as [Ecs2 Lpre2]. fold epre epost in Ecs2, Lpre2.
+    destruct (ra ++ rb) as [|y e'] eqn:Eab.
+    - cbn [length Nat.eqb]. rewrite <- Ecs2, Lpre2.
+      unfold cfield_tree, relations_from_entries. cbn [children].
+      rewrite entry_remove_cs_canon; [|apply Forall_entryish_map|rewrite map_length, app_length; cbn [length]; lia].
+      rewrite <- map_l_remove. now rewrite l_remove_app_len.
+    - cbn [length Nat.eqb]. now rewrite Ecs2. }
+  set (rs6 := [Some (mk_hnd tid []); Some (mk_hnd tid ([] ++ [length epre])); b; c; d;
+               Some (mk_hnd tid (([] ++ [length epre]) ++ [length pre]))]).
+  destruct (relation_remove_spec ts rs6 5 tid ri T [] ROOT epre epost pre (crel_tree r0) post cs' ecs'
+              eq_refl HT HGp Hcs Hecs)
+    as (ts' & F & R & L & T' & O & (tn & rn & S1 & N1) & (sl & Se1 & Se2) & A).
+  destruct (F (mk_hnd tid ([] ++ [length epre]))) as [ht hp] eqn:EF. cbn [h_tid h_path] in Se1, Se2.
+  exists ts', (Some (mk_hnd ht hp)), (option_map F b), (option_map F c), (option_map F d).
+  eexists. split.
+  - cbn [run_op]. change (ereg 0) with 1. unfold through, st5.
+    eapply runs_with_reg_some; [reflexivity|].
+    rbind.
+    { rbind; [|rdone]. unfold entry_remove_relation.
+      eapply runs_eq; [apply runs_scoped|reflexivity|].
+      + rbind.
+        { unfold nth_child_handle. rbind; [apply runs_get_reg; reflexivity|].
+          rbind; [eapply runs_children_of; [exact HT|apply get_path_cfield_entry]|]. rdone. }
+        rewrite nth_index_rel_centry. cbn [option_map child_h h_tid h_path].
+        rewrite <- Lrpre. fold pre. rewrite <- Lpre. fold epre.
+        rbind; [apply runs_push_tmp|]. cbn [length app].
+        rbind; [exact R|].
+        unfold node_of_reg. rbind.
+        { rbind; [apply runs_get_reg; unfold rs6; cbn [map nth_error option_map]; rewrite S1; reflexivity|].
+          eapply runs_node_of; [exact N1|reflexivity]. }
+        rdone.
+      + unfold rs6. cbn [map option_map length firstn].
+        rewrite (A (mk_hnd tid [])) by apply above_root. rewrite EF. reflexivity. }
+    unfold reg_text, node_of_reg.
+    rbind.
+    { rbind.
+      { rbind; [apply runs_get_reg; reflexivity|]. eapply runs_node_of; [exact Se1|exact Se2]. }
+      rdone. }
+    rdone.
+  - rewrite T'. f_equal. f_equal. cbn [upd_path]. rewrite l_remove_relation_split.
+    unfold ecs', cfield_tree, relations_from_entries. reflexivity.
+Qed.
